@@ -4,14 +4,17 @@
   Request: `form <id> <lhs> <rhs>` (or `form <id> <item>*` for Sum/Product), the id layout is the one
   documented in harness/src/c10.rs:
       id = K*1_000_000 + OP*10_000 + SHAPE*1_000 + STY*10 + VAR
-  Model column: the value-level model of NB.Model.Scalar routed like the forwarding macros
-  (promotion cast, then the leaf impl for the operator / operand position); for the pure big∘big forms
-  the canonical value-level operation.  Oracle column: the mathematical result on `Int`
+  Model column: for every scalar form of `+ - * / %` (big ∘ s, s ∘ big, big ∘= s, `scalar %= BigUint`,
+  and the scalar items of Sum/Product) the DIGIT-level model of NB.Model.ScalarD (`NB.SD.uScalarForm`,
+  `NB.SD.iScalarForm`, `NB.SD.dRemAssignScalar`: promotion cast, then the leaf impl on digit vectors through the
+  digit-level add/sub/mul/div/convert/cmp models) — no size cap; shifts and powers use the value-level model of
+  NB.Model.Scalar; the pure big∘big forms use the canonical value-level operation.  Oracle column: the mathematical result on `Int`
   (`+ - *`, `Int.tdiv/tmod`, two's-complement bit operations through a window of residues,
   shifts as `* 2^k` and floor division) or the documented panic class.
 -/
 import NB.Wire
 import NB.Model.Scalar
+import NB.Model.ScalarD
 import NB.Model.AsmParams
 namespace NB.Drv.C10
 open NB NB.Wire
@@ -40,7 +43,7 @@ def styOfName (s : String) : Option STy :=
 
 inductive Arg where
   | u (n : Nat) (limbs : List Nat)
-  | i (x : VInt)
+  | i (x : VInt) (b : BigInt)
   | s (t : STy) (v : Int)
 
 def parseScalar (s : String) : Option Arg :=
@@ -54,7 +57,7 @@ def parseScalar (s : String) : Option Arg :=
 def parseArg (f : Form) (idx : Nat) (s : String) : Option Arg :=
   if s.contains ':' then parseScalar s
   else if f.k = 1 ∨ (f.op = 11 ∧ f.sty = 13 ∧ idx = 1) then (parseLimbs s).map (fun l => .u (val l) l)
-  else (parseBigInt s).map (fun b => .i ⟨b.sign, val b.mag⟩)
+  else (parseBigInt s).map (fun b => .i ⟨b.sign, val b.mag⟩ b)
 
 def parseArgs (f : Form) : Nat → List String → Option (List Arg)
   | _, [] => some []
@@ -69,6 +72,7 @@ inductive Res where
   | u (n : Nat)
   | ul (l : List Nat)
   | i (x : VInt)
+  | il (b : BigInt)
   | ou (o : Option Nat)
   | oi (o : Option VInt)
 
@@ -78,6 +82,7 @@ def Res.show : Res → String
   | .u n => "ok " ++ showLimbs (ofNat n)
   | .ul l => "ok " ++ showLimbs l
   | .i x => "ok " ++ showVInt x
+  | .il b => "ok " ++ showSign b.sign ++ showLimbs b.mag
   | .ou o => showOpt (fun n => showLimbs (ofNat n)) o
   | .oi o => showOpt showVInt o
 
@@ -138,7 +143,7 @@ def iBin (op : Nat) (a b : VInt) : Except Panic VInt :=
 
 def argInt : Arg → Int
   | .u n _ => n
-  | .i x => x.val
+  | .i x _ => x.val
   | .s _ v => v
 
 /-- two's-complement window wide enough for both operands -/
@@ -213,35 +218,35 @@ def posOf (shape : Nat) : SPos :=
 def liftU (r : Except Panic Nat) : Except Panic Res := r.map Res.u
 def liftI (r : Except Panic VInt) : Except Panic Res := r.map Res.i
 
-/-- BigUint ± scalar on the digit level (promotion cast, then the digit-level leaf) -/
-def uAddSubDigits (op : Nat) (pos : SPos) (t : STy) (la : List Nat) (s : Int) : Except Panic Res :=
-  let p := t.promo
-  let v := (castTo p s).toNat
-  if op = 1 then .ok (.ul (dAddAssign p NB.Gen.P la v))
-  else match pos with
-    | .scalarBig => (dSubRev p v la).map Res.ul
-    | _ => (dSubAssign p NB.Gen.P la v).map Res.ul
+/-- BigUint ∘ scalar on the digit level (promotion cast, then the digit-level leaf) -/
+def uFormDigits (op : AOp) (pos : SPos) (t : STy) (la : List Nat) (s : Int) : Except Panic Res :=
+  (SD.uScalarForm NB.Gen.P op pos t la s).map Res.ul
+
+/-- BigInt ∘ scalar on the digit level -/
+def iFormDigits (op : AOp) (pos : SPos) (t : STy) (a : BigInt) (s : Int) : Except Panic Res :=
+  (SD.iScalarForm NB.Gen.P op pos t a s).map Res.il
 
 def model (f : Form) (args : List Arg) : Option (Except Panic Res) :=
   match f.k, f.shape, args with
-  -- Sum / Product: folds of the `Add<T>` / `Mul<T>` forms
+  -- Sum / Product: folds of the `Add<T>` / `Mul<T>` forms (scalar items through the digit-level leaves)
   | 1, 6, items =>
     let step (acc : Except Panic Nat) (it : Arg) : Except Panic Nat :=
       acc >>= fun a => match it with
         | .u n _ => .ok (if f.op = 16 then a + n else a * n)
-        | .s t s => uScalarForm (if f.op = 16 then .add else .mul) .bigScalar t a s
-        | .i _ => .error (.internal "arg")
+        | .s t s => (SD.uScalarForm NB.Gen.P (if f.op = 16 then .add else .mul) .bigScalar t (ofNat a) s).map val
+        | .i _ _ => .error (.internal "arg")
     some (liftU (items.foldl step (.ok (if f.op = 16 then 0 else 1))))
   | 2, 6, items =>
     let step (acc : Except Panic VInt) (it : Arg) : Except Panic VInt :=
       acc >>= fun a => match it with
-        | .i x => .ok (if f.op = 16 then VInt.add a x else VInt.mul a x)
-        | .s t s => iScalarForm (if f.op = 16 then .add else .mul) .bigScalar t a s
+        | .i x _ => .ok (if f.op = 16 then VInt.add a x else VInt.mul a x)
+        | .s t s =>
+          (SD.iScalarForm NB.Gen.P (if f.op = 16 then .add else .mul) .bigScalar t (SD.ofV a) s).map SD.toV
         | .u _ _ => .error (.internal "arg")
     some (liftI (items.foldl step (.ok (if f.op = 16 then VInt.zero else ⟨.plus, 1⟩))))
   -- scalar %= BigUint
-  | 1, 5, [.s t s, .u a _] =>
-    some ((remAssignScalar t s a).map (fun r => if t.signed then Res.i (VInt.ofInt r) else Res.u r.toNat))
+  | 1, 5, [.s t s, .u _ la] =>
+    some ((SD.dRemAssignScalar t s la).map (fun r => if t.signed then Res.i (VInt.ofInt r) else Res.u r.toNat))
   -- BigUint
   | 1, _, [.u a _, .u b _] =>
     if f.op = 11 then some (liftU (uPowBig a b))
@@ -252,30 +257,28 @@ def model (f : Form) (args : List Arg) : Option (Except Panic Res) :=
     else if f.op = 15 then some (.ok (.ou (if b = 0 then none else some (a / b))))
     else some (liftU (uBin f.op a b))
   | 1, _, [.u a la, .s t s] =>
-    if f.op = 1 ∨ f.op = 2 then some (uAddSubDigits f.op (posOf f.shape) t la s)
-    else if f.op = 9 then some (liftU (uShl a s))
+    if f.op = 9 then some (liftU (uShl a s))
     else if f.op = 10 then some (liftU (uShr a s))
     else if f.op = 11 then some (.ok (.u (powPrim a s.toNat)))
-    else (aopOf f.op).map (fun op => liftU (uScalarForm op (posOf f.shape) t a s))
-  | 1, 2, [.s t s, .u a la] =>
-    if f.op = 1 ∨ f.op = 2 then some (uAddSubDigits f.op .scalarBig t la s) else
-    (aopOf f.op).map (fun op => liftU (uScalarForm op .scalarBig t a s))
+    else (aopOf f.op).map (fun op => uFormDigits op (posOf f.shape) t la s)
+  | 1, 2, [.s t s, .u _ la] =>
+    (aopOf f.op).map (fun op => uFormDigits op .scalarBig t la s)
   -- BigInt
-  | 2, _, [.i a, .i b] =>
+  | 2, _, [.i a _, .i b _] =>
     if f.op = 12 then some (.ok (.oi (some (VInt.add a b))))
     else if f.op = 13 then some (.ok (.oi (some (VInt.ofInt (a.val - b.val)))))
     else if f.op = 14 then some (.ok (.oi (some (VInt.mul a b))))
     else if f.op = 15 then
       some (.ok (.oi (if b.mag = 0 then none else some (VInt.fromBiguint (a.sign.mul b.sign) (a.mag / b.mag)))))
     else some (liftI (iBin f.op a b))
-  | 2, _, [.i a, .u e _] => if f.op = 11 then some (liftI (iPowBig a e)) else none
-  | 2, _, [.i a, .s t s] =>
+  | 2, _, [.i a _, .u e _] => if f.op = 11 then some (liftI (iPowBig a e)) else none
+  | 2, _, [.i a ab, .s t s] =>
     if f.op = 9 then some (liftI (if f.shape = 3 then iShlAssign a s else iShl a s))
     else if f.op = 10 then some (liftI (if f.shape = 3 then iShrAssign a s else iShr a s))
     else if f.op = 11 then some (.ok (.i (iPow a s.toNat)))
-    else (aopOf f.op).map (fun op => liftI (iScalarForm op (posOf f.shape) t a s))
-  | 2, 2, [.s t s, .i a] =>
-    (aopOf f.op).map (fun op => liftI (iScalarForm op .scalarBig t a s))
+    else (aopOf f.op).map (fun op => iFormDigits op (posOf f.shape) t ab s)
+  | 2, 2, [.s t s, .i _ ab] =>
+    (aopOf f.op).map (fun op => iFormDigits op .scalarBig t ab s)
   | _, _, _ => none
 
 def handle (op : String) (args : List String) : Option (String × String) :=
